@@ -426,14 +426,16 @@ theorem minv_revert (d : Diff) (rest : List Diff) (m m' : MetaMap) (hinv : MInv 
 
 /-! ### nodes -/
 
-theorem store_meta {σ : Type} (be : Backend σ) (nd nd' : Node σ) (id : BlockId) (d : Diff)
+theorem store_meta {σ : Type} (be : Backend σ) (hmf : be.migFix = false) (nd nd' : Node σ) (id : BlockId) (d : Diff)
     (h : nd.store be id d = .ok nd') : metaStore nd.casmMeta nd.blocks.length d = .ok nd'.casmMeta := by
   unfold Node.store at h
   split at h
   · cases h
   · split at h
     · cases h
-    · next m hm => cases h; exact hm
+    · next m hm =>
+      cases h
+      simpa [metaStoreOf, hmf] using hm
 
 theorem revert_meta {σ : Type} (be : Backend σ) (nd nd' : Node σ) (h : nd.revert be = .ok nd') :
     ∃ id d, nd.blocks = (id, d) :: nd'.blocks ∧ metaRevert nd.casmMeta d = .ok nd'.casmMeta := by
@@ -450,7 +452,7 @@ theorem revert_meta {σ : Type} (be : Backend σ) (nd nd' : Node σ) (h : nd.rev
         · next m hm => cases h; exact ⟨id, d, hb, hm⟩
 
 /-- the metadata bucket of a node follows its chain after every history whose blocks meet `CasmStep` -/
-theorem run_minv {σ : Type} (be : Backend σ) (ops : List Op) (nd nd' : Node σ) (hI : MInv nd.chain nd.casmMeta)
+theorem run_minv {σ : Type} (be : Backend σ) (hmf : be.migFix = false) (ops : List Op) (nd nd' : Node σ) (hI : MInv nd.chain nd.casmMeta)
     (hP : OpsOK (fun ch d => CasmStep ch d ∧ MigVal ch d) ops nd.chain) (h : run be nd ops = some nd') :
     MInv nd'.chain nd'.casmMeta := by
   induction ops generalizing nd with
@@ -462,7 +464,7 @@ theorem run_minv {σ : Type} (be : Backend σ) (ops : List Op) (nd nd' : Node σ
       cases op with
       | store id d =>
         have hb := (store_blocks be nd n1 id d hstep).1
-        have hm := store_meta be nd n1 id d hstep
+        have hm := store_meta be hmf nd n1 id d hstep
         have hlen : nd.blocks.length = nd.chain.length := by simp [Node.chain]
         rw [hlen] at hm
         have hc : n1.chain = d :: nd.chain := by simp [Node.chain, hb]
